@@ -22,11 +22,42 @@ def main() -> int:
     from vf import ctx as C
 
     ctx = C.Ctx(Path(job["workdir"]))
-    import guppylang_internals.cfg.bb as bbmod
+    from guppylang_internals.experimental import enable_experimental_features
 
+    enable_experimental_features()
     salt = job["salt"]
     if salt is not None:
-        bbmod.BB.__hash__ = lambda self: hash((salt, id(self) * 2654435761 % (1 << 61)))
+        # every class of /repo that hashes by identity (BB, CFG, definitions, ...) and every ast
+        # node gets a salted identity hash: the iteration order of any set / dict of such objects
+        # changes from configuration to configuration, as it would with a different heap layout
+        import ast
+        import importlib
+        import inspect
+        import pkgutil
+
+        import guppylang
+        import guppylang_internals
+
+        def salted(self):
+            return hash((salt, id(self) * 2654435761 % (1 << 61)))
+
+        for pkg in (guppylang_internals, guppylang):
+            for m in pkgutil.walk_packages(pkg.__path__, pkg.__name__ + "."):
+                try:
+                    mod = importlib.import_module(m.name)
+                except Exception:
+                    continue
+                for c in list(vars(mod).values()):
+                    if inspect.isclass(c) and c.__module__.startswith("guppylang") \
+                            and c.__hash__ is object.__hash__ and not issubclass(c, BaseException):
+                        try:
+                            c.__hash__ = salted
+                        except (TypeError, AttributeError):
+                            pass
+        try:
+            ast.AST.__hash__ = salted
+        except TypeError:
+            pass
     outs = []
     for k, prog in enumerate(job["programs"]):
         # same file path in every configuration (paths end up in diagnostics)
